@@ -1,6 +1,7 @@
 /-
-  Helper lemmas for C13: the greedy overlap pass (`_remove_overlapping`) — what it guarantees
-  for every input (margin of the longest profile, domination chains) and under one profile length.
+  Helper lemmas for C13: the overlap pass (`_remove_overlapping`, fix D61) — no two kept results
+  collide, every dropped result collides with a kept one that outranks it; the 20 % rule survives
+  the neighbour merge.
 -/
 import ASV.Proofs.RefineProv
 namespace ASV.Refine
@@ -21,70 +22,101 @@ theorem conflict_eq (env : Env) (p r : Hit) : conflict env p r = !startsClear en
   · have h' : 5 * p.qe - max (env.len p.prof) (env.len r.prof) ≤ 5 * r.qs := by omega
     simp [h, h']
 
-theorem remOvFrom_clearBy (env : Env) (m5 : Int) : ∀ (p : Hit) (rest : List Hit),
-    (∀ h ∈ p :: rest, env.len h.prof ≤ m5) → Sorted (p :: rest) →
-    (remOvFrom env p rest).Pairwise (ClearBy m5)
-  | p, [], _, _ => by simp [remOvFrom]
-  | p, r :: rest, hl, hs => by
-    have hsp := List.pairwise_cons.mp hs
-    have hs_r : Sorted (r :: rest) := hsp.2
-    have hs_p : Sorted (p :: rest) := hs.sublist (List.Sublist.cons_cons p (List.sublist_cons_self r rest))
-    have hl_r : ∀ h ∈ r :: rest, env.len h.prof ≤ m5 := fun h hh => hl h (List.mem_cons_of_mem _ hh)
-    have hl_p : ∀ h ∈ p :: rest, env.len h.prof ≤ m5 := by
-      intro h hh
-      rcases List.mem_cons.mp hh with rfl | hh
-      · exact hl _ (by simp)
-      · exact hl h (by simp [hh])
-    simp only [remOvFrom]
+theorem startsClear_le (env : Env) (a b : Hit) :
+    startsClear env a b = true ↔ 5 * a.qe - max (env.len a.prof) (env.len b.prof) ≤ 5 * b.qs := by
+  simp only [startsClear, decide_eq_true_eq]
+  simp only [margin5]
+
+theorem startsClear_iff (env : Env) (p r : Hit) : startsClear env p r = true ↔ conflict env p r = false := by
+  rw [conflict_eq]; cases startsClear env p r <;> simp
+
+/-! ### no two kept results collide -/
+
+/-- the earlier-indexed of the two does not collide with the later one -/
+def Apart (env : Env) (x y : Nat × Hit) : Prop :=
+  (x.1 < y.1 → conflict env x.2 y.2 = false) ∧ (y.1 < x.1 → conflict env y.2 x.2 = false)
+
+theorem Apart.symm {env : Env} {x y : Nat × Hit} (h : Apart env x y) : Apart env y x := ⟨h.2, h.1⟩
+
+theorem apart_of_not_clash {env : Env} {x k : Nat × Hit} (h : clashIdx env x k = false) : Apart env k x := by
+  simp only [clashIdx] at h
+  constructor
+  · intro hlt
+    have : ¬ x.1 ≤ k.1 := by omega
+    simpa [this] using h
+  · intro hlt
+    have : x.1 ≤ k.1 := by omega
+    simpa [this] using h
+
+theorem keepBest_apart (env : Env) : ∀ (kept l : List (Nat × Hit)), kept.Pairwise (Apart env) →
+    (keepBest env kept l).Pairwise (Apart env)
+  | kept, [], h => by simpa [keepBest] using h
+  | kept, x :: rest, h => by
+    simp only [keepBest]
     split
-    · split
-      · exact remOvFrom_clearBy env m5 r rest hl_r hs_r
-      · exact remOvFrom_clearBy env m5 p rest hl_p hs_p
-    · rename_i hc
-      refine List.Pairwise.cons ?_ (remOvFrom_clearBy env m5 r rest hl_r hs_r)
-      intro x hx
-      have hx' : x ∈ r :: rest := (remOvFrom_sublist env r rest).subset hx
-      have hrx : r.qs ≤ x.qs := by
-        rcases List.mem_cons.mp hx' with rfl | hx''
-        · exact Int.le_refl _
-        · exact (List.pairwise_cons.mp hs_r).1 x hx''
-      have h1 := hl p (by simp)
-      have h2 := hl r (by simp)
-      simp only [conflict, decide_eq_true_eq] at hc
-      simp only [ClearBy]
-      omega
+    · exact keepBest_apart env kept rest h
+    · rename_i hno
+      apply keepBest_apart env (kept ++ [x]) rest
+      rw [List.pairwise_append]
+      refine ⟨h, by simp, ?_⟩
+      intro k hk y hy
+      simp at hy; subst hy
+      have hno' : ¬ (kept.any fun other => clashIdx env y other) = true := hno
+      rw [List.any_eq_true] at hno'
+      have : clashIdx env y k = false := by
+        cases hc : clashIdx env y k with
+        | false => rfl
+        | true => exact absurd ⟨k, hk, hc⟩ hno'
+      exact apart_of_not_clash this
 
-theorem removeOverlapping_clearBy (env : Env) (m5 : Int) {l : List Hit}
-    (hl : ∀ h ∈ l, env.len h.prof ≤ m5) (hs : Sorted l) : (removeOverlapping env l).Pairwise (ClearBy m5) := by
-  cases l with
-  | nil => simp [removeOverlapping, removeOverlapping?]
-  | cons a t => simpa [removeOverlapping, removeOverlapping?] using remOvFrom_clearBy env m5 a t hl hs
+theorem keptIdx_no_conflict (env : Env) (l : List Hit) :
+    (keptIdx env l).Pairwise (fun a b => conflict env a.2 b.2 = false) := by
+  have h1 : (keptIdx env l).Pairwise (Apart env) := by
+    rw [keptIdx, List.Perm.pairwise_iff (fun {x y} h => Apart.symm h) (sortBy_perm leIdx _)]
+    exact keepBest_apart env [] _ List.Pairwise.nil
+  exact ((keptIdx_idx_lt env l).and h1).imp (fun h => h.2.1 h.1)
 
-theorem mergeImmFrom_clearBy (env : Env) (m5 : Int) : ∀ (last : Hit) (rest : List Hit),
-    (last :: rest).Pairwise (ClearBy m5) → Sorted (last :: rest) →
-    (mergeImmFrom env last rest).Pairwise (ClearBy m5)
+/-- in the order they are returned, no result collides with a later one (any input) -/
+theorem removeOverlapping_no_conflict (env : Env) (l : List Hit) :
+    (removeOverlapping env l).Pairwise (fun a b => startsClear env a b = true) := by
+  rw [removeOverlapping_eq, List.pairwise_map]
+  exact (keptIdx_no_conflict env l).imp (fun h => (startsClear_iff env _ _).mpr h)
+
+/-! ### the 20 % rule survives the neighbour merge -/
+
+theorem mergeImmFrom_clear (env : Env) : ∀ (last : Hit) (rest : List Hit),
+    (last :: rest).Pairwise (fun a b => startsClear env a b = true) → Sorted (last :: rest) →
+    (mergeImmFrom env last rest).Pairwise (fun a b => startsClear env a b = true)
   | last, [], _, _ => by simp [mergeImmFrom]
   | last, d :: rest, hc, hs => by
     have hcp := List.pairwise_cons.mp hc
     have hsp := List.pairwise_cons.mp hs
     have hld : last.qs ≤ d.qs := hsp.1 d (by simp)
-    have keep : (last :: mergeImmFrom env d rest).Pairwise (ClearBy m5) := by
-      refine List.Pairwise.cons ?_ (mergeImmFrom_clearBy env m5 d rest hcp.2 hsp.2)
+    have keep : (last :: mergeImmFrom env d rest).Pairwise (fun a b => startsClear env a b = true) := by
+      refine List.Pairwise.cons ?_ (mergeImmFrom_clear env d rest hcp.2 hsp.2)
       intro x hx
-      have h1 := (mergeImmFrom_sorted env d rest hsp.2).2 x hx
-      have h2 : ClearBy m5 last d := hcp.1 d (by simp)
-      simp only [ClearBy] at h2 ⊢
-      omega
+      -- `x` starts where one of the remaining hits starts and has its profile
+      obtain ⟨F, hF, hm⟩ := mergeImmFrom_from env (d :: rest) d rest [d] (IsMerge.single env d)
+        (by intro f hf; simp at hf; subst hf; simp) (fun r hr => List.mem_cons_of_mem _ hr) hsp.2 x hx
+      obtain ⟨f₀, rest', e, hq, _⟩ := hm.first
+      have hf₀ : f₀ ∈ d :: rest := hF f₀ (by rw [e]; simp)
+      have hp : f₀.prof = x.prof := hm.prof f₀ (by rw [e]; simp)
+      have h1 := hcp.1 f₀ hf₀
+      rw [startsClear_le] at h1 ⊢
+      rw [← hp, ← hq]; exact h1
     simp only [mergeImmFrom]
     split
     · exact keep
-    · split
-      · apply mergeImmFrom_clearBy env m5 (last.merge d) rest
+    · rename_i hpe
+      have hpe' : d.prof = last.prof := by simpa using hpe
+      split
+      · apply mergeImmFrom_clear env (last.merge d) rest
         · refine List.Pairwise.cons ?_ (List.pairwise_cons.mp hcp.2).2
           intro x hx
-          have h1 : ClearBy m5 last x := hcp.1 x (List.mem_cons_of_mem _ hx)
-          have h2 : ClearBy m5 d x := (List.pairwise_cons.mp hcp.2).1 x hx
-          simp only [ClearBy, Hit.merge] at h1 h2 ⊢
+          have h1 := hcp.1 x (List.mem_cons_of_mem _ hx)
+          have h2 := (List.pairwise_cons.mp hcp.2).1 x hx
+          rw [startsClear_le] at h1 h2 ⊢
+          simp only [Hit.merge, hpe'] at h1 h2 ⊢
           omega
         · refine List.Pairwise.cons ?_ (List.pairwise_cons.mp hsp.2).2
           intro x hx
@@ -92,11 +124,12 @@ theorem mergeImmFrom_clearBy (env : Env) (m5 : Int) : ∀ (last : Hit) (rest : L
           exact hsp.1 x (List.mem_cons_of_mem _ hx)
       · exact keep
 
-theorem mergeImmediate_clearBy (env : Env) (m5 : Int) {l : List Hit}
-    (hc : l.Pairwise (ClearBy m5)) (hs : Sorted l) : (mergeImmediate env l).Pairwise (ClearBy m5) := by
+theorem mergeImmediate_clear (env : Env) {l : List Hit}
+    (hc : l.Pairwise (fun a b => startsClear env a b = true)) (hs : Sorted l) :
+    (mergeImmediate env l).Pairwise (fun a b => startsClear env a b = true) := by
   cases l with
   | nil => simp [mergeImmediate, mergeImmediate?]
-  | cons a t => simpa [mergeImmediate, mergeImmediate?] using mergeImmFrom_clearBy env m5 a t hc hs
+  | cons a t => simpa [mergeImmediate, mergeImmediate?] using mergeImmFrom_clear env a t hc hs
 
 /-- every hit produced from `l` carries the profile of an input hit -/
 theorem FromInput.prof_mem {env : Env} {l : List Hit} {o : Hit} (h : FromInput env l o) :
@@ -105,35 +138,36 @@ theorem FromInput.prof_mem {env : Env} {l : List Hit} {o : Hit} (h : FromInput e
   obtain ⟨f₀, rest, e, _, _⟩ := hm.first
   exact ⟨f₀, hF f₀ (by rw [e]; simp), hm.prof f₀ (by rw [e]; simp)⟩
 
-theorem refine_clearBy (env : Env) (nb : Bool) (m5 : Int) (l : List Hit)
-    (hl : ∀ h ∈ l, env.len h.prof ≤ m5) : (refine env nb l).Pairwise (ClearBy m5) := by
+/-- the exact 20 % rule between any two returned hits, both modes, every input -/
+theorem refine_startClear (env : Env) (nb : Bool) (l : List Hit) :
+    (refine env nb l).Pairwise (fun a b => startsClear env a b = true) := by
   simp only [refine, beforeIncomplete]
   apply List.Pairwise.sublist (removeIncomplete_sublist env _)
-  have hl' : ∀ h ∈ sortHits l, env.len h.prof ≤ m5 := fun h hh => hl h (mem_sortHits.mp hh)
   cases nb with
   | true =>
     simp only [if_true]
-    exact mergeImmediate_clearBy env m5 (removeOverlapping_clearBy env m5 hl' (sortHits_sorted l))
+    exact mergeImmediate_clear env (removeOverlapping_no_conflict env _)
       ((sortHits_sorted l).sublist (removeOverlapping_sublist env _))
   | false =>
     simp only [Bool.false_eq_true, if_false]
-    apply removeOverlapping_clearBy env m5 _ (mergeDomainList_sorted env _)
-    intro h hh
-    obtain ⟨f, hf, e⟩ := (mergeDomainList_from env (sortHits_sorted l) h hh).prof_mem
-    rw [← e]
-    exact hl' f hf
+    exact removeOverlapping_no_conflict env _
 
-/-- with one profile length the exact 20 % rule holds between any two returned hits -/
-theorem refine_startClear_uniform (env : Env) (nb : Bool) (len : Int) (l : List Hit)
-    (hl : ∀ h ∈ l, env.len h.prof = len) : (refine env nb l).Pairwise (fun a b => startsClear env a b = true) := by
-  have hprof : ∀ o ∈ refine env nb l, env.len o.prof = len := by
+theorem withinMargin_of_startsClear (env : Env) (a b : Hit) (h : startsClear env a b = true) :
+    withinMargin env a b = true := by
+  simp only [startsClear, decide_eq_true_eq] at h
+  simp only [withinMargin, decide_eq_true_eq]
+  simp only [overlapLen]
+  omega
+
+/-- corollary: one margin for all pairs, the longest profile among the input hits -/
+theorem refine_clearBy (env : Env) (nb : Bool) (m5 : Int) (l : List Hit)
+    (hl : ∀ h ∈ l, env.len h.prof ≤ m5) : (refine env nb l).Pairwise (ClearBy m5) := by
+  have hprof : ∀ o ∈ refine env nb l, env.len o.prof ≤ m5 := by
     intro o ho
     obtain ⟨f, hf, e⟩ := (refine_from env nb l o ho).prof_mem
     rw [← e]; exact hl f hf
-  have hc := refine_clearBy env nb len l (fun h hh => by rw [hl h hh]; exact Int.le_refl _)
-  -- turn the uniform margin into the pair's own margin
-  have aux : ∀ (out : List Hit), (∀ o ∈ out, env.len o.prof = len) → out.Pairwise (ClearBy len) →
-      out.Pairwise (fun a b => startsClear env a b = true) := by
+  have aux : ∀ (out : List Hit), (∀ o ∈ out, env.len o.prof ≤ m5) →
+      out.Pairwise (fun a b => startsClear env a b = true) → out.Pairwise (ClearBy m5) := by
     intro out
     induction out with
     | nil => intro _ _; exact List.Pairwise.nil
@@ -145,66 +179,63 @@ theorem refine_startClear_uniform (env : Env) (nb : Bool) (len : Int) (l : List 
       have h1 := hpw'.1 b hb
       have ha := hp a (by simp)
       have hb' := hp b (List.mem_cons_of_mem _ hb)
-      simp only [startsClear, margin5, ha, hb', decide_eq_true_eq, ClearBy] at h1 ⊢
+      rw [startsClear_le] at h1
+      simp only [ClearBy]
       omega
-  exact aux _ hprof hc
+  exact aux _ hprof (refine_startClear env nb l)
 
-theorem withinMargin_of_startsClear (env : Env) (a b : Hit) (h : startsClear env a b = true) :
-    withinMargin env a b = true := by
-  simp only [startsClear, decide_eq_true_eq] at h
-  simp only [withinMargin, decide_eq_true_eq]
-  simp only [overlapLen]
-  omega
+/-! ### every dropped result collides with a kept one that outranks it -/
 
-/-! ### domination chains -/
-
-theorem Dominated.score_le {env : Env} {d k : Hit} (h : Dominated env d k) : d.sc ≤ k.sc := by
-  induction h with
-  | step hb =>
-    simp only [beats, Bool.or_eq_true, Bool.and_eq_true, decide_eq_true_eq] at hb
-    omega
-  | trans hb _ ih =>
-    simp only [beats, Bool.or_eq_true, Bool.and_eq_true, decide_eq_true_eq] at hb
-    omega
-
-theorem Dominated.extend {env : Env} {d m : Hit} {out : List Hit} (hb : beats env m d = true)
-    (hm : m ∈ out ∨ ∃ k ∈ out, Dominated env m k) : ∃ k ∈ out, Dominated env d k := by
-  rcases hm with hm | ⟨k, hk, hd⟩
-  · exact ⟨m, hm, Dominated.step hb⟩
-  · exact ⟨k, hk, Dominated.trans hb hd⟩
-
-theorem remOvFrom_dominated (env : Env) : ∀ (p : Hit) (rest : List Hit), ∀ d ∈ p :: rest,
-    d ∈ remOvFrom env p rest ∨ ∃ k ∈ remOvFrom env p rest, Dominated env d k
-  | p, [], d, hd => by
-    left; simpa [remOvFrom] using hd
-  | p, r :: rest, d, hd => by
-    simp only [remOvFrom]
+theorem keepBest_justified (env : Env) : ∀ (kept l : List (Nat × Hit)),
+    l.Pairwise (fun a b => rankBefore a b = true) → ∀ d ∈ l,
+    d ∈ keepBest env kept l ∨
+      ∃ k ∈ keepBest env kept l, clashIdx env d k = true ∧ (k ∈ kept ∨ rankBefore k d = true)
+  | kept, [], _, d, hd => by simp at hd
+  | kept, h :: rest, hs, d, hd => by
+    have hsp := List.pairwise_cons.mp hs
+    simp only [keepBest]
     split
-    · rename_i hc
-      rw [conflict_eq] at hc
-      split
-      · rename_i hsc
-        -- `p` is replaced by the better `r`
-        have hb : beats env r p = true := by
-          simp only [beats, hc, Bool.true_and, Bool.or_eq_true, decide_eq_true_eq]
-          right; omega
-        rcases List.mem_cons.mp hd with rfl | hd'
-        · exact Or.inr (Dominated.extend hb (remOvFrom_dominated env r rest r (by simp)))
-        · exact remOvFrom_dominated env r rest d hd'
-      · rename_i hsc
-        -- `r` does not score higher: it is dropped against `p`
-        have hb : beats env p r = true := by
-          simp only [beats, hc, Bool.true_and, Bool.or_eq_true, decide_eq_true_eq]
-          left; omega
-        rcases List.mem_cons.mp hd with rfl | hd'
-        · exact remOvFrom_dominated env d rest d (by simp)
-        · rcases List.mem_cons.mp hd' with rfl | hd''
-          · exact Or.inr (Dominated.extend hb (remOvFrom_dominated env p rest p (by simp)))
-          · exact remOvFrom_dominated env p rest d (List.mem_cons_of_mem _ hd'')
+    · rename_i hcl
+      rcases List.mem_cons.mp hd with rfl | hd'
+      · rw [List.any_eq_true] at hcl
+        obtain ⟨k, hk, hc⟩ := hcl
+        exact Or.inr ⟨k, keepBest_mono env kept rest k hk, hc, Or.inl hk⟩
+      · exact keepBest_justified env kept rest hsp.2 d hd'
     · rcases List.mem_cons.mp hd with rfl | hd'
-      · left; simp
-      · rcases remOvFrom_dominated env r rest d hd' with h | ⟨k, hk, hdom⟩
-        · left; exact List.mem_cons_of_mem _ h
-        · right; exact ⟨k, List.mem_cons_of_mem _ hk, hdom⟩
+      · exact Or.inl (keepBest_mono env _ rest d (by simp))
+      · rcases keepBest_justified env (kept ++ [h]) rest hsp.2 d hd' with h1 | ⟨k, hk, hc, hr⟩
+        · exact Or.inl h1
+        · refine Or.inr ⟨k, hk, hc, ?_⟩
+          rcases hr with hr | hr
+          · rcases List.mem_append.mp hr with h2 | h2
+            · exact Or.inl h2
+            · simp at h2; subst h2; exact Or.inr (hsp.1 d hd')
+          · exact Or.inr hr
+
+/-- index form: the result at position `j` is kept, or a kept result at another position collides
+    with it and has the higher score — or the same score and the earlier position -/
+theorem keptIdx_justified (env : Env) (l : List Hit) : ∀ x ∈ enumFrom 0 l,
+    x ∈ keptIdx env l ∨ ∃ k ∈ keptIdx env l, clashIdx env x k = true ∧
+      (x.2.sc < k.2.sc ∨ (k.2.sc = x.2.sc ∧ k.1 < x.1)) := by
+  intro x hx
+  have hsorted := sortBy_pairwise rankBefore_total rankBefore_trans (enumFrom 0 l)
+  rcases keepBest_justified env [] _ hsorted x ((mem_sortBy _).mpr hx) with h | ⟨k, hk, hc, hr⟩
+  · exact Or.inl ((mem_sortBy _).mpr h)
+  · by_cases hkx : x ∈ keepBest env [] (sortBy rankBefore (enumFrom 0 l))
+    · exact Or.inl ((mem_sortBy _).mpr hkx)
+    · refine Or.inr ⟨k, (mem_sortBy _).mpr hk, hc, ?_⟩
+      rcases hr with hr | hr
+      · simp at hr
+      · have hk_enum : k ∈ enumFrom 0 l := mem_keptIdx ((mem_sortBy _).mpr hk)
+        -- different entries of the enumeration have different indices
+        have hne : k.1 ≠ x.1 := by
+          intro e
+          have h1 := (mem_enumFrom_iff.mp hk_enum).2
+          have h2 := (mem_enumFrom_iff.mp hx).2
+          rw [e, h2] at h1
+          simp only [Option.some.injEq] at h1
+          exact hkx (by rw [show x = k from Prod.ext e.symm h1]; exact hk)
+        simp only [rankBefore, decide_eq_true_eq] at hr
+        omega
 
 end ASV.Refine
